@@ -614,7 +614,7 @@ def run(ctx):
         if m:
             for p in ps:
                 probe_of[p] = m.group(1)
-    n = 320 if ctx.quick() else 6000
+    n = 320 if ctx.quick() else 4000
     size = 3 if ctx.quick() else 4
     gen = [gen_program(rng, size) for _ in range(n)]
     progs = corpus + [g[0] for g in gen]
@@ -679,7 +679,7 @@ def run(ctx):
             break
 
     # (b) fragment: evalIR vs model VM vs real
-    nf = 480 if ctx.quick() else 10000
+    nf = 480 if ctx.quick() else 5000
     frags = [gen_frag_program(rng, 3) for _ in range(nf)]
     rcode, mout, _ = C.run_bin([C.driver_path("c01driver"), "frag"], "\n".join(f[0] for f in frags) + "\n", timeout=900)
     mlines = mout.splitlines()
@@ -709,7 +709,7 @@ def run(ctx):
     # execute) read into `List C01C.Instr` and run by `C01C.run`; outside the modelled set: counted per reason
     tie = {}
     rng2 = random.Random(ctx.seed + 101)
-    nwhole = len(corpus) + (100 if ctx.quick() else 3000)
+    nwhole = len(corpus) + (100 if ctx.quick() else 1500)
     ctx.log("differential and fragment stages done; real bytecode replay of %d whole programs" % nwhole)
     if len(ctx.violations) < 8:
         # the library procedures S defines in the object language (map, filter, foldl, foldr, for-each, reduce) are
@@ -725,7 +725,7 @@ def run(ctx):
             # the same programs with the ENGINE's own Scheme definitions of map / foldl / foldr / filter (text of
             # stdlib.scm) compiled as the first unit: the engine's library code is executed by the model VM too
             lib = engine_library_source()
-            nlib = len(corpus) + (40 if ctx.quick() else 1500)
+            nlib = len(corpus) + (40 if ctx.quick() else 800)
             if lib is None:
                 ctx.violation("C01-stdlib.txt", "scheme/stdlib.scm: the definitions of map / foldl / foldr / filter were not found",
                               no_input=True)
@@ -733,7 +733,7 @@ def run(ctx):
                 bc_replay(ctx, stats, "whole_engine_library", [lib + USEP + p for p in progs[:nlib]], known=known)
             # MODULE mode: the program as `steel file.scm` runs it - a required module (mangled names, NOARITY and
             # specialised arithmetic op codes, self tail calls without arity check); every top-level expression printed
-            nmodbc = len(corpus) + (50 if ctx.quick() else 1500)
+            nmodbc = len(corpus) + (50 if ctx.quick() else 800)
             mdir = os.path.join(C.BUILD, "C01", "bcmods-%d" % os.getpid())
             os.makedirs(mdir, exist_ok=True)
             mtexts = []
@@ -750,7 +750,7 @@ def run(ctx):
     # (`compileTop e` vs the real listing) and the five-way run evalC / model compiler+VM / model VM on the real
     # listing / real engine / S
     if len(ctx.violations) < 8:
-        ncore = 180 if ctx.quick() else 3000
+        ncore = 180 if ctx.quick() else 1500
         cps = [gen_core_program(rng2) for _ in range(ncore)]
         ctexts = [USEP.join("\n".join(u) for u in p["units"]) for p in cps]
         cspec, crc = run_spec(["\n".join("\n".join(u) for u in p["units"]) for p in cps])
